@@ -7,10 +7,9 @@ CONSTANTS
   MaxOps = 3
   MaxOpen = 2
   MaxSets = 0
-  MaxTicks = 3
+  MaxTicks = 2
   MaxRules = 0
   Triggers = {0, 1, 2}
 VIEW view
-INVARIANTS TypeOK QpsOK AvgRtOK MinRtOK PeakOK ConcOK LoneRequestNeverShed
-  AllBBRWeaker AllUnsampledNeverBlocks AllMonotoneInTrigger
+INVARIANTS TypeOK QpsOK AvgRtOK MinRtOK PeakOK ConcOK LoneRequestNeverShed AllBBRWeaker AllUnsampledNeverBlocks AllMonotoneInTrigger
 CHECK_DEADLOCK FALSE
